@@ -30,6 +30,40 @@ Proof. intros [? ? ? ? ? ? [l|]]; simpl; lia. Qed.
 Lemma no_collision_app : forall addr L new, no_collision addr (L ++ new) -> no_collision addr L.
 Proof. intros addr L new H d1 d2 H1 H2. apply H; apply in_or_app; now left. Qed.
 
+(** two prefixes of one list are comparable *)
+Lemma prefixes_comparable : forall a b q, is_prefix a q = true -> is_prefix b q = true ->
+  is_prefix a b = true \/ is_prefix b a = true.
+Proof.
+  induction a as [|x a IH]; intros b q Ha Hb; [now left|].
+  destruct b as [|y b]; [now right|]. destruct q as [|z q]; [discriminate|]. simpl in *.
+  apply andb_true_iff in Ha as [Ha1 Ha2]. apply andb_true_iff in Hb as [Hb1 Hb2].
+  apply N.eqb_eq in Ha1, Hb1. subst. rewrite N.eqb_refl. simpl. eapply IH; eassumption.
+Qed.
+
+(** HasPrefix answers true for every prefix of a present path *)
+Lemma hp_complete : forall f t p q v, tree_ok t -> length p <= f -> is_prefix p q = true -> den t q = Some v ->
+  hp f t p = true.
+Proof.
+  induction f as [|f IH]; intros t p q v Hok Hlen Hpq Hden.
+  - destruct p; [reflexivity | simpl in Hlen; lia].
+  - destruct p as [|b p]; [reflexivity|]. destruct q as [|b' q]; [discriminate|].
+    assert (b' = b) by (simpl in Hpq; apply andb_true_iff in Hpq as [H _]; apply N.eqb_eq in H; congruence). subst b'.
+    rewrite den_cons in Hden. cbn [hp].
+    destruct (tree_ok_inv t Hok) as [fs [Hfs [_ [Hs Hall]]]]. unfold forks_get in *. rewrite Hfs in *.
+    destruct (fget fs b) as [[pre c]|] eqn:Hg; [|discriminate].
+    destruct (Hall b pre c Hg) as [_ [_ [_ Hc]]].
+    destruct pre as [|x pre]; [discriminate|].
+    destruct (is_prefix (x :: pre) (b :: q)) eqn:Hq; [|discriminate].
+    destruct (is_prefix (x :: pre) (b :: p)) eqn:Hp.
+    + apply (IH c _ (skipn (S (length pre)) (b :: q)) v Hc).
+      * rewrite skipn_length. simpl in *. lia.
+      * change (S (length pre)) with (length (x :: pre)).
+        apply is_prefix_spec in Hp. apply is_prefix_spec in Hq. rewrite Hp, Hq in Hpq.
+        rewrite is_prefix_app_l in Hpq. rewrite is_prefix_app, skipn_app_exact in Hpq. exact Hpq.
+      * exact Hden.
+    + destruct (prefixes_comparable (b :: p) (x :: pre) (b :: q) Hpq Hq) as [H|H]; [exact H | congruence].
+Qed.
+
 Section Final.
 Variable addr : list N -> list N.
 Variable kg : list N.
@@ -154,7 +188,7 @@ Proof.
   eexists. exists a. split; [reflexivity|]. cbn [ms_log app].
   exists root, a. cbn [ms_root ms_st ms_log ms_last].
   assert (HSt : Stored addr kg new root a) by (apply HS; apply incl_refl).
-  split; [repeat split; auto|]. split; [assumption|]. split; [assumption|].
+  split; [exact (conj Hok (conj Hloc (conj Hrbs Hnv)))|]. split; [exact Hden|]. split; [exact Hf0|].
   split; [apply (RepLazy addr kg new t' root a); auto|].
   split; [assumption|]. split; [reflexivity|]. split; [congruence|]. split; [assumption|]. split; [reflexivity|].
   assert (Hi0 : store_inv addr [] []) by (split; [intros r d H; discriminate H | intros d []]).
@@ -223,6 +257,21 @@ Proof.
   destruct (run_phase1 h (init_state enc) spec_empty (init_inv1 enc) Hd Hnc) as [H1|H2].
   - unfold lookup_obs. now rewrite (lookup_inv1 addr kg _ _ p H1).
   - unfold lookup_obs. destruct (lookup_inv2 _ _ _ p H2 Hnc) as [s' [Hs _]]. now rewrite Hs.
+Qed.
+
+(** prefix queries: every prefix of a present path is reported (the converse fails after removes) *)
+Theorem has_prefix_complete : forall enc h p,
+  disciplined spec_empty false h ->
+  no_collision addr (ms_log (final_state addr kg enc h)) ->
+  spec_has_prefix (spec_run spec_empty h) p ->
+  has_prefix_obs addr kg (final_state addr kg enc h) p = BBool true.
+Proof.
+  intros enc h p Hd Hnc [q [v [Hpq Hq]]]. unfold final_state in *.
+  destruct (run_phase1 h (init_state enc) spec_empty (init_inv1 enc) Hd Hnc) as [H1|H2].
+  - unfold has_prefix_obs. rewrite (has_prefix_inv1 addr kg _ _ p H1). cbn [snd]. f_equal.
+    destruct H1 as [[Hok _] [_ [_ [_ [_ Hden]]]]]. apply (hp_complete _ _ p q v Hok (le_n _) Hpq). now rewrite Hden.
+  - unfold has_prefix_obs. destruct (has_prefix_inv2 _ _ _ p H2 Hnc) as [s' [t [Hs [_ [[Hok _] Hden]]]]].
+    rewrite Hs. cbn [snd]. f_equal. apply (hp_complete _ _ p q v Hok (le_n _) Hpq). now rewrite Hden.
 Qed.
 
 End Final.
